@@ -103,6 +103,9 @@ func TestProp(t *testing.T) {
 		rep.Floor("forwarded_preflight", 30)
 		rep.Floor("forwarded_with_pass_token", 100)
 		rep.Floor("session_cookie_stripped", 300)
+		for _, sp := range []string{"space-before-equals", "tab-before-equals", "quoted-value", "leading-spaces", "trailing-space", "spaces-and-quotes"} {
+			rep.Floor("session_cookie_stripped_spelling_"+sp, 10)
+		}
 		rep.Floor("other_cookies_compared", 300)
 	}
 	if rep.Finish() == "violated" {
@@ -274,6 +277,25 @@ func runCase(rep *vh.Report, env vh.Env, stacks []*stackKind, i int) {
 		expectOthers = append(expectOthers, o.n+"="+o.v)
 	}
 	sessCookie := ps.CookieName + "=" + sealed
+	// spelling of the session cookie pair: net/http's reader trims white space around the name and
+	// strips double quotes around the value, so these spellings still carry the session
+	spelling := "plain"
+	if r.Intn(2) == 0 {
+		switch r.Intn(6) {
+		case 0:
+			sessCookie, spelling = ps.CookieName+" ="+sealed, "space-before-equals"
+		case 1:
+			sessCookie, spelling = ps.CookieName+"\t="+sealed, "tab-before-equals"
+		case 2:
+			sessCookie, spelling = ps.CookieName+"=\""+sealed+"\"", "quoted-value"
+		case 3:
+			sessCookie, spelling = "  "+ps.CookieName+"="+sealed, "leading-spaces"
+		case 4:
+			sessCookie, spelling = ps.CookieName+"="+sealed+" ", "trailing-space"
+		default:
+			sessCookie, spelling = " "+ps.CookieName+"  =\""+sealed+"\"", "spaces-and-quotes"
+		}
+	}
 	withSession := mode == "authenticated" || mode == "skip-auth-with-cookie" || (mode == "preflight" && r.Intn(2) == 0)
 	var list []string
 	for _, o := range others {
@@ -441,8 +463,9 @@ func runCase(rep *vh.Report, env vh.Env, stacks []*stackKind, i int) {
 	if withSession {
 		if stripped {
 			rep.Count("session_cookie_stripped", 1)
+			rep.Count("session_cookie_stripped_spelling_"+spelling, 1)
 		} else {
-			rep.Violate("c03", i, "cookie: session-cookie-forwarded layout="+cookieDesc+" mode="+mode, fmt.Sprintf("upstream Cookie header: %q", h.Header["Cookie"]), kc)
+			rep.Violate("c03", i, "cookie: session-cookie-forwarded layout="+cookieDesc+spellingTag(spelling)+" mode="+mode, fmt.Sprintf("upstream Cookie header: %q", h.Header["Cookie"]), kc)
 		}
 	}
 	if !(connClass == "names-protected-header" && strings.Contains(strings.ToLower(conn), "cookie")) || true {
@@ -470,4 +493,12 @@ func runCase(rep *vh.Report, env vh.Env, stacks []*stackKind, i int) {
 			rep.Violate("c03", i, "cookie: other-cookies-"+cls, fmt.Sprintf("client sent %q, upstream received %q", expectOthers, gotOthers), kc)
 		}
 	}
+}
+
+// spellingTag keeps the signature of the plain spelling as it always was.
+func spellingTag(sp string) string {
+	if sp == "plain" {
+		return ""
+	}
+	return " spelling=" + sp
 }
